@@ -64,6 +64,7 @@ def gen_case(rng, idx, tier):
                     nodes += [k] * rng.randint(1, room)
             if not nodes:
                 return None
+            rng.shuffle(nodes)
             tol = rng.choice(TOLS) if regime == "b" else "None"
         else:
             regime = "x"
